@@ -79,7 +79,7 @@ impl TryFrom<&str> for Card {
     type Error = String;
     fn try_from(s: &str) -> Result<Self, Self::Error> {
         match s.trim().len() {
-            2 => {
+            2 if s.trim().is_char_boundary(1) => {
                 let rank = Rank::try_from(&s.trim()[0..1])?;
                 let suit = Suit::try_from(&s.trim()[1..2])?;
                 Ok(Card::from((rank, suit)))
